@@ -1,65 +1,114 @@
 //! Miri tier of C19. Miri is used as a second deterministic simulator: its own
-//! seeded preemptive scheduler decides the interleaving (one -Zmiri-seed = one
-//! interleaving) and it reports data races on shared state even when the values
-//! happen to agree. The scenario shares compiled Regex objects (and clones made
-//! while another thread is searching) between three threads and compares every
-//! result with the sequential pass.
+//! seeded preemptive scheduler decides the interleaving at basic-block
+//! granularity (one -Zmiri-seed = one interleaving), which reaches code *between*
+//! the step-hook sites that the baton scheduler cannot split, and it reports data
+//! races on shared state even when the values happen to agree.
+//!
+//! argv[1] = world seed. 0 (default) is a fixed scenario; any other value
+//! generates a small world (2-3 regexes biased to char classes, case-insensitive
+//! matching, back-references and prefilters; non-ASCII haystacks; 3 threads, one of
+//! them on clones made while the others search). Every result is compared with a
+//! sequential pass on freshly compiled private objects.
 use regress::Regex;
 use std::sync::Arc;
 
-fn fmt(m: Option<regress::Match>) -> String {
-    match m {
-        None => "None".into(),
-        Some(m) => format!("{:?};{:?}", m.range(), m.captures),
-    }
+fn fmt(m: regress::Match) -> String {
+    format!("{:?};{:?}", m.range(), m.captures)
 }
 
-fn queries() -> Vec<(usize, &'static str, usize)> {
-    // (regex index, haystack, start)
-    vec![
-        (0, "aab bbb abb", 0),
-        (0, "aabbb", 0),
-        (1, "xay xby", 0),
-        (1, "ab", 1),
-        (2, "xyxy", 1),
-        (2, "yxy", 0),
-        (3, "Ab aB AB", 0),
-        (3, "zz", 0),
-        (0, "abab", 2),
-        (1, "b", 0),
-    ]
+fn splitmix(x: &mut u64) -> u64 {
+    *x = x.wrapping_add(0x9E37_79B9_7F4A_7C15);
+    let mut z = *x;
+    z = (z ^ (z >> 30)).wrapping_mul(0xBF58_476D_1CE4_E5B9);
+    z = (z ^ (z >> 27)).wrapping_mul(0x94D0_49BB_1331_11EB);
+    z ^ (z >> 31)
 }
 
-fn run_query(res: &[Arc<Regex>], q: &(usize, &'static str, usize)) -> String {
+const CORPUS: &[(&str, &str)] = &[
+    ("[a-cé-ü]+", ""),
+    ("[^a-c]+", ""),
+    ("[k-mß]+", "i"),
+    ("[\\u{100}-\\u{17f}]+", "u"),
+    ("\\w+", "iu"),
+    ("(\\w)\\1", "i"),
+    ("(\\w)\\1", "iu"),
+    ("(a|b){2}\\1", ""),
+    ("(?:(a)|(b))+", ""),
+    ("(?<=x)y", ""),
+    ("ab", "i"),
+    ("aab", ""),
+    ("[ab]c", ""),
+    ("[éa]+b", ""),
+    ("\\bk+\\b", "iu"),
+    ("(?=[a-c])\\w", ""),
+    ("[^\\s]+", ""),
+    ("a*", ""),
+];
+const HAYS: &[&str] = &["aab bbb abb", "xay xby", "éaüb kKß", "aA bB kK", "xyxy", "Ab aB AB", "ābĉ aab", "ß", "", "abcabc é"];
+
+type Query = (usize, usize, usize); // (regex index, haystack index, start)
+
+fn run_query(res: &[Arc<Regex>], hays: &[String], q: &Query) -> String {
     let re = &res[q.0];
-    let all: Vec<String> = re.find_from(q.1, q.2).map(|m| fmt(Some(m))).collect();
+    let h = &hays[q.1];
+    let start = if h.is_char_boundary(q.2.min(h.len())) { q.2.min(h.len()) } else { 0 };
+    let all: Vec<String> = re.find_from(h, start).map(fmt).collect();
     all.join("|")
 }
 
 fn main() {
-    let specs: [(&str, &str); 4] = [("(a|b){2}\\1", ""), ("(?:(a)|(b))+", ""), ("(?<=x)y", ""), ("ab", "i")];
-    let res: Vec<Arc<Regex>> = specs.iter().map(|(p, f)| Arc::new(Regex::with_flags(p, *f).unwrap())).collect();
-    let qs = queries();
+    let seed: u64 = std::env::args().nth(1).and_then(|s| s.parse().ok()).unwrap_or(0);
+    let (specs, hays, qs): (Vec<(String, String)>, Vec<String>, Vec<Query>) = if seed == 0 {
+        let specs = vec![("(a|b){2}\\1", ""), ("(?:(a)|(b))+", ""), ("(?<=x)y", ""), ("ab", "i")];
+        let hays = vec!["aab bbb abb", "aabbb", "xay xby", "ab", "xyxy", "yxy", "Ab aB AB", "zz", "abab", "b"];
+        let qs = vec![(0, 0, 0), (0, 1, 0), (1, 2, 0), (1, 3, 1), (2, 4, 1), (2, 5, 0), (3, 6, 0), (3, 7, 0), (0, 8, 2), (1, 9, 0)];
+        (specs.into_iter().map(|(a, b)| (a.to_string(), b.to_string())).collect(), hays.into_iter().map(|s| s.to_string()).collect(), qs)
+    } else {
+        let mut x = seed;
+        let nre = 2 + (splitmix(&mut x) % 2) as usize;
+        let specs: Vec<(String, String)> = (0..nre)
+            .map(|_| {
+                let (p, f) = CORPUS[(splitmix(&mut x) % CORPUS.len() as u64) as usize];
+                (p.to_string(), f.to_string())
+            })
+            .collect();
+        let nh = 3 + (splitmix(&mut x) % 3) as usize;
+        let hays: Vec<String> = (0..nh).map(|_| HAYS[(splitmix(&mut x) % HAYS.len() as u64) as usize].to_string()).collect();
+        let nq = 6 + (splitmix(&mut x) % 4) as usize;
+        let qs: Vec<Query> = (0..nq).map(|_| ((splitmix(&mut x) % nre as u64) as usize, (splitmix(&mut x) % nh as u64) as usize, (splitmix(&mut x) % 3) as usize)).collect();
+        (specs, hays, qs)
+    };
+    let compile = |specs: &[(String, String)]| -> Vec<Arc<Regex>> { specs.iter().map(|(p, f)| Arc::new(Regex::with_flags(p, f.as_str()).unwrap())).collect() };
+    let res = compile(&specs);
+    let hays = Arc::new(hays);
     // sequential reference on freshly compiled private objects
-    let fresh: Vec<Arc<Regex>> = specs.iter().map(|(p, f)| Arc::new(Regex::with_flags(p, *f).unwrap())).collect();
-    let expected: Vec<String> = qs.iter().map(|q| run_query(&fresh, q)).collect();
+    let fresh = compile(&specs);
+    let expected: Vec<String> = qs.iter().map(|q| run_query(&fresh, &hays, q)).collect();
+    let nested = |r: &[Arc<Regex>], hays: &[String]| -> String {
+        let re = &r[r.len() - 1];
+        let h = &hays[0];
+        re.replace_all_with(h, |m| format!("<{}>", re.find_from(h, m.start()).count()))
+    };
+    let nested_expected = nested(&fresh, &hays);
 
     let nthreads = 3;
     let mut handles = Vec::new();
     for t in 0..nthreads {
         let res = res.clone();
         let qs = qs.clone();
+        let hays = hays.clone();
         handles.push(std::thread::spawn(move || {
             let mut out = Vec::new();
             // thread t runs the queries rotated by t; thread 2 uses clones made while the others search
             let local: Vec<Arc<Regex>> = if t == 2 { res.iter().map(|r| Arc::new((**r).clone())).collect() } else { res.clone() };
             for k in 0..qs.len() {
                 let i = (k + t * 3) % qs.len();
-                out.push((i, run_query(&local, &qs[i])));
-                if t == 1 && k == 4 {
+                out.push((i, run_query(&local, &hays, &qs[i])));
+                if t == 1 && k == qs.len() / 2 {
                     // re-entrancy through a user closure on the shared object
-                    let s = res[1].replace_all_with("xay xby", |m| format!("<{}>", res[1].find_from("ab", m.start().min(2)).count()));
-                    out.push((usize::MAX, s));
+                    let re = &res[res.len() - 1];
+                    let h = &hays[0];
+                    out.push((usize::MAX, re.replace_all_with(h, |m| format!("<{}>", re.find_from(h, m.start()).count()))));
                 }
             }
             out
@@ -69,27 +118,26 @@ fn main() {
     for h in handles {
         for (i, got) in h.join().unwrap() {
             if i == usize::MAX {
-                let want = fresh[1].replace_all_with("xay xby", |m| format!("<{}>", fresh[1].find_from("ab", m.start().min(2)).count()));
-                if got != want {
-                    println!("C19-MIRI-MISMATCH nested: got {} want {}", got, want);
+                if got != nested_expected {
+                    println!("C19-MIRI-MISMATCH world {} nested: got {} want {}", seed, got, nested_expected);
                     bad += 1;
                 }
             } else if got != expected[i] {
-                println!("C19-MIRI-MISMATCH query {}: got {} want {}", i, got, expected[i]);
+                println!("C19-MIRI-MISMATCH world {} query {:?} /{}/{}: got {} want {}", seed, qs[i], specs[qs[i].0].0, specs[qs[i].0].1, got, expected[i]);
                 bad += 1;
             }
         }
     }
     // after the concurrent phase the shared objects must still answer like fresh ones
     for (i, q) in qs.iter().enumerate() {
-        let got = run_query(&res, q);
+        let got = run_query(&res, &hays, q);
         if got != expected[i] {
-            println!("C19-MIRI-MISMATCH after: query {}: got {} want {}", i, got, expected[i]);
+            println!("C19-MIRI-MISMATCH world {} after: query {:?}: got {} want {}", seed, q, got, expected[i]);
             bad += 1;
         }
     }
     if bad > 0 {
         std::process::exit(1);
     }
-    println!("miri-c19 ok");
+    println!("miri-c19 world {} ok", seed);
 }
